@@ -14,6 +14,11 @@ CHECKS = {
     note="Trusts TLC/SANY, Go toolchain, encoding/json + unicode/utf8 as reference decoders, and the <=4-byte look-ahead argument for strings longer than the window.",
     technique="TLA+ transducer spec (Escape) model-checked with TLC; TLC-generated table replayed on WriteLogString and both encoders",
     design="4/C09", engine="escape"),
+ "C02": dict(
+    text="TLC builds every routing configuration (<=2 loggers/2 patterns quick, <=3/3 thorough, plus random 4-logger/8-pattern ones) over literal tags, wildcards, malformed wildcards, empty tag lists and three root modes, checks that the operational longest-prefix lookup equals the declarative Serve for all 28 tags, and emits (configuration, accept/reject, tag->logger). Each is rendered to a configuration map and run through the real Refresh 3-4 times with shuffled key order/logger names/blanks; one event per registered tag is logged and the receiving recording appender (or console) compared with Serve; rejected configurations must yield an error, never a panic.",
+    note="Trusts TLC/SANY, Go toolchain, the recording appender plugin and VerifReset; Go map iteration order is sampled by repetition, not enumerated.",
+    technique="TLA+ spec (Routing) model-checked with TLC; every enumerated configuration replayed through Refresh and observed via recording appenders",
+    design="4/C02", engine="routing"),
 }
 
 NOT_YET = {}
